@@ -53,3 +53,16 @@ Print Assumptions C07_never_exceeds.
 Print Assumptions C07_held_stays_under_limit.
 Print Assumptions C07_fits_in_chunk_succeeds.
 Print Assumptions C07_none_is_transparent.
+
+(* ---- tie to the source text: the functions below are parsed from /repo/src on every run
+   (tools/rs2v.py -> LeafActual.v) and evaluated by RustSem.eval ---- *)
+From BV Require Import RustSem ConstsActual LeafActual LeafActualOk.
+From Coq Require Import String.
+Open Scope string_scope.
+Open Scope N_scope.
+
+Theorem C07_source_limit : forall (b : bump) left d en,
+  call_fn src_fns (self_of (limit b) (ab_of b)) "allocation_limit_remaining" [] = Ret (vopt (limit_left b)) /\
+  call_fn src_fns en "chunk_fits_under_limit" [vopt left; vdetails d] = Ret (VB (fits left d)).
+Proof. exact (fun b left d en => conj (src_allocation_limit_remaining_ok b) (src_chunk_fits_under_limit_ok left d en)). Qed.
+Print Assumptions C07_source_limit.
